@@ -13,11 +13,36 @@ def small_history(rng, rs, ncalls):
     return g.history({"rs": rs, "cache": "file"}, [])
 
 
-def run_prefix_job(job, timeout=900):
+def run_prefix_chunk(job, timeout=1800):
     p = subprocess.run([hist.STFSDRV, "prefix"], input=json.dumps(job), stdout=subprocess.PIPE, stderr=subprocess.PIPE, text=True,
                        timeout=timeout, env=dict(ENV, VERIF_SCRATCH=hist.scratch_dir()))
     out = [json.loads(l) for l in p.stdout.splitlines() if l.startswith("{")]
     return out, p.returncode, p.stderr[-1000:]
+
+
+CHUNK = 2500
+
+
+def run_prefix_job(job, timeout=1800):
+    """One sweep; dense sweeps (stride < 8) are cut into chunks of CHUNK prefix lengths per process (every evaluated prefix keeps an
+    index database open in its process: STFS has no Close)."""
+    if job.get("ns") or job.get("stride", 1) >= 8:
+        return run_prefix_chunk(job, timeout)
+    first, rc, err = run_prefix_chunk(dict(job, **{"from": 0, "to": CHUNK}), timeout)
+    if rc != 0 or not first:
+        return first, rc, err
+    full = first[0].get("full_len", 0)
+    rest = [dict(job, **{"from": k, "to": k + CHUNK}) for k in range(CHUNK, full + 1, CHUNK)]
+    from concurrent.futures import ThreadPoolExecutor
+    with ThreadPoolExecutor(max_workers=6) as ex:
+        parts = list(ex.map(lambda j: run_prefix_chunk(j, timeout), rest))
+    out = list(first)
+    for o, rc2, err2 in parts:
+        out += o[1:]            # the first record of every chunk repeats the layout
+        if rc2 != 0:
+            rc, err = rc2, err2
+    out = [out[0]] + sorted(out[1:], key=lambda r: r.get("n", 0))
+    return out, rc, err
 
 
 def prefix_stream(ctx):
